@@ -232,6 +232,17 @@ def _crash_runs(ctx, pool, kinds):
             j = _base_job(entry, k, sid, 2)
             j["op"] = "dry"
             dry_jobs.append(j)
+    # every OTHER kind (quick tier): the extractor directly, a SAMPLE of its lines with all classes -- a handler whose
+    # class list was narrowed or extended shows at any line; and every kind with the path argument absent
+    light = [] if ctx.thorough else [k for k in KINDS if k not in kinds and k != "archive"]
+    for k in light:
+        j = _base_job("direct", k, M.SEEDS[k][0], 1)
+        j.update(op="dry", _light=True)
+        dry_jobs.append(j)
+    for k in [x for x in KINDS if x != "archive"]:
+        j = _base_job("direct", k, M.SEEDS[k][0], 1)
+        j.update(op="dry", path_mode="none", _light=True, _nopath=True)
+        dry_jobs.append(j)
     # cli --json / --json-unit reach the serialisers
     for mode in ("json", "unit"):
         j = _base_job("cli", "docx" if "docx" in kinds else kinds[0], M.SEEDS["docx" if "docx" in kinds else kinds[0]][0], 1)
@@ -245,7 +256,7 @@ def _crash_runs(ctx, pool, kinds):
     j = {"op": "dry", "entry": "member", "kind": "plain", "src": {"seed": "fix:archives/test_archive.7z"},
          "raw_archive": True, "arch": "7z", "members": 1, "ext": "txt", "approx_size": 0}
     dry_jobs.append(j)
-    dres = pool.run(dry_jobs)
+    dres = pool.run([{k2: v2 for k2, v2 in j.items() if not k2.startswith("_")} for j in dry_jobs])
     inj_jobs = []
     n_lines = {"try": 0, "fin": 0, "pro": 0, "ofin": 0, "hdl": 0, "open": 0}
     seen_direct = set()
@@ -259,7 +270,14 @@ def _crash_runs(ctx, pool, kinds):
         j["_plan"] = _trace_shape(r["ev"])
         j["_n"] = r.get("n", 0)
         entry = j["entry"]
-        for tg in r["targets"]:
+        targets = r["targets"]
+        if j.get("_light"):
+            cand = [tg for tg in targets if tg["t"] == "Extractor" and tg["st"] in ("try", "fin")]
+            pre = [tg for tg in cand if not tg["ay"]]
+            post = [tg for tg in cand if tg["ay"]]
+            pick = pre[:1] + pre[-1:] + post[:1] + (rng.sample(pre, min(3, len(pre))) if pre else [])
+            targets = list({(tg["fn"], tg["line"], tg["ay"], tg["inst"]): tg for tg in pick}.values())
+        for tg in targets:
             st, t = tg["st"], tg["t"]
             n_lines[st] = n_lines.get(st, 0) + 1
             if st in ("ofin", "hdl"):
@@ -274,6 +292,8 @@ def _crash_runs(ctx, pool, kinds):
                 classes = ["NotSupported"]
             elif st == "pro":
                 continue
+            elif t == "Extractor" and j.get("_nopath"):
+                classes = [rng.choice(OTHER_CLASSES), "MemoryError", "Encrypted", rng.choice(fam)]
             elif t == "Extractor":
                 if entry == "direct" or (ctx.thorough and tg["inst"] == 1 and entry in ("member", "cli")):
                     classes = OTHER_CLASSES + fam
@@ -284,7 +304,7 @@ def _crash_runs(ctx, pool, kinds):
             else:
                 classes = [rng.choice(OTHER_CLASSES), "Encrypted"]
             key = (tg["fn"], tg["line"], tg["ay"], tg["inst"], entry, j["kind"] if t == "Extractor" else j.get("arch", ""),
-                   j.get("cli_mode", ""))
+                   j.get("cli_mode", ""), j.get("path_mode", ""))
             if key in seen_direct:
                 continue
             seen_direct.add(key)
@@ -400,6 +420,9 @@ def _fuzz_jobs(ctx, kinds_all):
             j["arch"] = kw.pop("arch", rng.choice(["zip", "zip", "tar", "tar.gz"]))
         if entry in CLI_ENTRIES or entry == "clisub":
             j["cli_mode"] = kw.pop("cli_mode", rng.choice(["text", "json", "unit", "jsonbin"]))
+        if entry == "direct" and j["op"] == "fuzz":
+            # the optional path argument: real name, absent, empty -- the failure surface must not depend on it
+            j["path_mode"] = kw.pop("path_mode", rng.choice(["real", "real", "none", "empty"]))
         j.update(kw)
         jobs.append(j)
 
@@ -577,6 +600,65 @@ def _fuzz_jobs(ctx, kinds_all):
                               ["burst", rng.randrange(20, ln), 8, rng.randrange(1 << 30)], ["zero", rng.randrange(10, ln), 16]])
             add(rng.choice(["cli", "cli", "readfile"]), "archive", {"seed": tar0, "muts": [["compress", comp], dmg]}, ext=ext,
                 cli_mode="text")
+    # ---- every extractor FAILING with path absent / empty / real (truncated own seed, foreign bytes, container shell)
+    for b in kinds_all:
+        sid = M.SEEDS[b][0]
+        n0 = len(M.seed_bytes(sid))
+        if n0 > 500_000 and not T:
+            fails = [{"seed": txt, "muts": [["const", "ole512"]]}, {"seed": txt, "muts": [["const", "latin"]]}]
+        else:
+            fails = [{"seed": sid, "muts": [["trunc", n0 // 2]]}, {"seed": sid, "muts": [["trunc", max(1, n0 // 10)]]},
+                     {"seed": txt, "muts": [["const", "latin"]]}]
+        if b in ZIP_KINDS:
+            fails.append({"seed": sid, "muts": [["zipshell", "main", "drop", 1]]})       # package without its main part
+            fails.append({"seed": sid, "muts": [["zipshell", "content_types", "drop", 1]]})
+        for f in fails:
+            for pm in ("none", "empty", "real"):
+                add("direct", b, f, foreign=True, path_mode=pm)
+    # ---- hostile TOKENS of the hand-written tokenisers, planted in context (RTF control words / symbols with malformed
+    #      parameters, HTML character references, MIME encoded-words and header fields, mbox separators)
+    plant_seeds = [("rtf", "gen:rtf"), ("html", "gen:html"), ("mhtml", "gen:mhtml"), ("eml", M.SEEDS["eml"][0]),
+                   ("mbox", M.SEEDS["mbox"][0]), ("plain", "gen:json")]
+    if T:
+        plant_seeds += [("rtf", "fix:legacy_ms/2025.144.un.rtf"), ("html", "fix:html/sample.html")]
+    for k, sid in plant_seeds:
+        fam_ = M.PLANT_FAMILY[k]
+        for ti in range(len(M.TOKENS[fam_])):
+            poss = [rng.randrange(1 << 20) for _ in range(5 if T else 1)] + ([-1, -2] if (T or k in ("rtf", "html")) else [-1])
+            if k in ("mhtml", "plain") and not T and ti % 3:
+                continue
+            for pos in poss:
+                add("direct", k, {"seed": sid, "muts": [["plant", fam_, ti, pos]]})
+            if T or ti % 8 == 0:
+                add(rng.choice(["readfile", "cli", "member", "attachment"]), k,
+                    {"seed": sid, "muts": [["plant", fam_, ti, rng.randrange(1 << 20)]]})
+    # ---- numeric fields that size an allocation / a loop set to values that fail at once (2**60 elements, "x", -1):
+    #      the extractor meets MemoryError / OverflowError / ValueError from its own code -- family clause per entry point
+    for fi, (k, part, pat, repl) in enumerate(M.COUNT_FIELDS):
+        vals = M.BIG if T else [M.BIG[0], M.BIG[5], M.BIG[(fi % 7) + 1]]
+        for val in vals:
+            src_ = {"seed": M.SEEDS[k][0], "muts": [["zipsub", part, pat, repl.replace("{N}", val), 1 if fi % 2 == 0 else 0]]}
+            add("direct", k, src_)
+            if T or val == M.BIG[0]:
+                add(rng.choice(["readfile", "member", "attachment", "cli"]), k, src_)
+    # ---- names that would break a one-line diagnostic if echoed: ZIP members flagged as encrypted, archive members,
+    #      attachments, OOXML parts -- through the CLI (one stderr line) and the other entry points
+    for i, nm_ in enumerate(M.HOSTILE_ECHO_NAMES):
+        src_ = {"seed": txt, "muts": [["zipenc", [nm_, "plain.txt"] if i % 2 else [nm_]]]}
+        add("cli", "archive", src_, ext="zip", cli_mode="text")
+        if T or i % 3 == 0:
+            add("readfile", "archive", src_, ext="zip")
+            add("direct", "archive", src_, ext="zip")
+            add("cli", "archive", src_, ext="zip", cli_mode="json")
+        for arch in (("zip", "tar", "tar.gz") if T else ("zip", "tar")):
+            # all members fail (truncated docx) -> "No extraction results" / per-member handling with a hostile name
+            add("climember", "docx", {"seed": M.SEEDS["docx"][0], "muts": [["trunc", 40]]}, member_names=[nm_ + ".docx"],
+                members=1, arch=arch, cli_mode="text")
+        add("attachment", "docx", {"seed": M.SEEDS["docx"][0], "muts": [["trunc", 40]]}, att_names=[nm_ + ".docx"], members=1)
+    for k in (ZIP_KINDS if T else ["docx", "xlsx", "odt"]):
+        add("cli", k, {"seed": M.SEEDS[k][0], "muts": [["zipshell", "main", "nlname", 1]]}, cli_mode="text")
+        add("cli", k, {"seed": M.SEEDS[k][0], "muts": [["zipshell", "main", "nlname", 1], ["zipshell", "main", "drop", 1]]},
+            cli_mode="text")
     # ---- format A routed to extractor B (21 x 21): the extractor function directly, and by file name
     pairs = [(a, b) for a in kinds_all for b in kinds_all if a != b]
     for a, b in pairs:
@@ -588,6 +670,16 @@ def _fuzz_jobs(ctx, kinds_all):
             add(rng.choice(["readfile", "member", "attachment", "cli"]), b, {"seed": sid}, foreign=True)
     # ---- degenerate constants into every extractor
     consts = sorted(c for c in M.CONSTS if c not in ("pdfprev", "pdfparent"))     # those two: witnesses above
+    native = {"rtf": "rtf", "pdf": "pdf", "htm": "html", "xml": "html", "eml": "eml", "mbo": "mbox", "7z": "archive", "tar": "archive",
+              "gz": "archive", "bz": "archive", "xz": "archive", "pk": "archive", "ole": "doc", "utf": "plain", "lat": "plain"}
+    for c in consts:                          # every degenerate constant at least into the extractor of its own format
+        for pre, b in native.items():
+            if c.startswith(pre):
+                add("direct", b, {"seed": M.SEEDS["plain"][0], "muts": [["const", c]]}, foreign=True)
+                if c.startswith("ole"):
+                    for b2 in ("ppt", "xls", "msg"):
+                        add("direct", b2, {"seed": M.SEEDS["plain"][0], "muts": [["const", c]]}, foreign=True)
+                break
     for b in kinds_all:
         cs = consts if T else rng.sample(consts, 6)
         for c in cs:
@@ -648,11 +740,18 @@ def run(ctx):
     def tlc_side():
         try:
             _theorems(ctx)
-            box["cases"] = _gen_cases(ctx, GEN_KINDS)
         except BaseException as e:          # noqa: re-raised in the main thread
             box["err"] = e
+
+    def gen_side():
+        try:
+            box["cases"] = _gen_cases(ctx, GEN_KINDS)
+        except BaseException as e:          # noqa
+            box["err"] = e
     th = threading.Thread(target=tlc_side)
+    th2 = threading.Thread(target=gen_side)
     th.start()
+    th2.start()
 
     with Pool(ctx.scratch / "pool", n=WORKERS) as pool:
         # binding check: the layer functions exist and have a wrapper
@@ -681,6 +780,7 @@ def run(ctx):
             for i, r in zip(killed, pool.run(dj)):
                 fres[i]["dom"] = r.get("dom") if isinstance(r, dict) else None
     th.join()
+    th2.join()
     if "err" in box:
         raise box["err"]
     ctx.log(f"TLC (theorems, sensitivity, SurfaceGen) done at {time.time() - t_start:.0f}s")
